@@ -7,6 +7,7 @@ CHECK = dict(
         "model GeoIP, map-based profile DB, scripted filter results and rate-limit decisions",
         "whether a debug-class (CHAOS) query of a profile is logged/billed is left open by the statement: only the necessary conditions are checked for it",
         "local file system with atomic O_APPEND writes; schedules are sampled (start barrier, measured overlap)",
+        "cmd unit: builder.queryLog is called directly; that builder.initDNS hands its result to the handlers is not judged",
     ],
     units=[
         dict(name="dnssvc", dir="internal/dnssvc", src=["C10/fixture", "C15/dnssvc"], runs=[
@@ -18,6 +19,9 @@ CHECK = dict(
         dict(name="querylog", dir="internal/querylog", src="C15/querylog", runs=[
             dict(name="concurrent", run="^TestVerifC15FSConcurrent$", quick=300, thorough=12000, shards_thorough=4),
             dict(name="race", run="^TestVerifC15FSConcurrentRace$", quick=400, thorough=8000, shards_thorough=2, race=True),
+        ]),
+        dict(name="cmd", dir="internal/cmd", src="C15/cmd", runs=[
+            dict(name="querylog-config", run="^TestVerifC15CmdQueryLog$", quick=400, thorough=8000, shards_quick=1, shards_thorough=2),
         ]),
     ],
 )
